@@ -231,7 +231,7 @@ def encValue (env : Env) (O : Oracle) : Nat → Field → PVal → Outcome PTree
       | none => .err "any"
       | some (tn, j5, hasProto, ik, iroot, inner) =>
         let jsonData : Outcome PTree :=
-          if !j5.isEmpty then .ok (.raw j5)
+          if !j5.isEmpty then .ok (chunkNode O j5)
           else if hasProto then
             match ik with
             | .none => .err "resolver: not found"
